@@ -663,6 +663,7 @@ def run(script, ctx):
                 r = _apply_edit(world, lv, op, rng)
             except Exception as e:
                 ctx.fault("edit_raised")
+                ctx.extra["edit_raised:%s:%s" % (k, type(e).__name__)] = ctx.extra.get("edit_raised:%s:%s" % (k, type(e).__name__), 0) + 1
                 ctx.log("edit_raised", i, k, type(e).__name__)
                 ctx.ops_executed += 1
                 targeted.add(i)
@@ -686,6 +687,7 @@ def run(script, ctx):
                     ctx.probe("copy_created")
                     ctx.log("copy", i, k)
                 else:
+                    ctx.extra["edit_ok:" + k] = ctx.extra.get("edit_ok:" + k, 0) + 1
                     ctx.log("edit", i, k)
                     _mark_edit(world, i, lv)
                     targeted.add(i)
